@@ -49,7 +49,13 @@ func ParseIgnoreFileContent(r io.Reader) (*Ruleset, error) {
 // This function will return an error only if an ignore file is present but
 // unreadable, or if an ignore file is present but contains invalid syntax.
 func LoadPackageIgnoreRules(packageDir string) (*Ruleset, error) {
-	file, err := os.Open(filepath.Join(packageDir, ".terraformignore"))
+	// Only a regular file (possibly behind a symlink) is read: opening a
+	// fifo would block.
+	ignorePath := filepath.Join(packageDir, ".terraformignore")
+	if info, err := os.Stat(ignorePath); err == nil && !info.Mode().IsRegular() {
+		return nil, fmt.Errorf("cannot read .terraformignore: not a regular file")
+	}
+	file, err := os.Open(ignorePath)
 	if err != nil {
 		if os.IsNotExist(err) {
 			return DefaultRuleset, nil
